@@ -82,13 +82,13 @@ def inplace_on_source(o):
     return None
 
 
-def analyse_cell(P, is_right, swap, reverse, vector, respelled=False):
+def analyse_cell(P, is_right, swap, reverse, vector, respelled=False, trailing_dim=False):
     table = table_for(is_right, swap, reverse)
     if respelled:
         from ..facepad import respell
 
         table = respell(table)
-    outs = run(P, table, vector=vector)
+    outs = run(P, table, vector=vector, trailing_dim=trailing_dim)
     rows = []
     for o in outs:
         if o.kind != "return":
@@ -260,13 +260,16 @@ def check_single_links(ctx, P, vectors, rule_of=None, floor_rule="R05.1"):
     rule_of = rule_of or (lambda r: r)
     fi = P.func("padding:_pad_face_connections")
     n_cells = 0
-    for is_right, swap, reverse, respelled in itertools.product([False, True], repeat=4):
+    for is_right, swap, reverse, variant in itertools.product([False, True], [False, True], [False, True], ["", "respelled", "trailing"]):
+        respelled, trailing = variant == "respelled", variant == "trailing"
         for vector in vectors:
             if respelled and vector == "parallel":
                 continue  # the spelling of the table is exercised on scalars and on the component that changes sign
-            kind = f"{'right' if is_right else 'left'} side, {'swapped' if swap else 'same'} axis, {'reversed' if reverse else 'normal'}, {vector or 'scalar'}" + (", links as lists with 0/1 flags" if respelled else "")
+            if trailing and not swap:
+                continue  # an extra dimension stored last matters where the along-edge direction is flipped
+            kind = f"{'right' if is_right else 'left'} side, {'swapped' if swap else 'same'} axis, {'reversed' if reverse else 'normal'}, {vector or 'scalar'}" + (", links as lists with 0/1 flags" if respelled else "") + (", an extra dimension stored last" if trailing else "")
             try:
-                rows = analyse_cell(P, is_right, swap, reverse, vector, respelled)
+                rows = analyse_cell(P, is_right, swap, reverse, vector, respelled, trailing)
             except Unmodelled as e:
                 ctx.unknown(rule_of("R05.1"), kind, str(e))
                 continue
